@@ -72,7 +72,7 @@ impl Matcher for NewerMatcher {
                     file_info.path().to_string_lossy(),
                     e
                 )
-                .unwrap();
+                .ok();
                 false
             }
             Ok(t) => t,
@@ -160,7 +160,7 @@ impl Matcher for NewerOptionMatcher {
                     file_info.path().to_string_lossy(),
                     e
                 )
-                .unwrap();
+                .ok();
                 false
             }
             Ok(t) => t,
@@ -210,7 +210,7 @@ impl Matcher for NewerTimeMatcher {
                     file_info.path().to_string_lossy(),
                     e
                 )
-                .unwrap();
+                .ok();
                 false
             }
             Ok(t) => t,
@@ -284,7 +284,7 @@ impl Matcher for FileTimeMatcher {
                     file_info.path().to_string_lossy(),
                     e
                 )
-                .unwrap();
+                .ok();
                 false
             }
             Ok(t) => t,
@@ -357,7 +357,7 @@ impl Matcher for FileAgeRangeMatcher {
                     file_info.path().to_string_lossy(),
                     e
                 )
-                .unwrap();
+                .ok();
                 false
             }
             Ok(t) => t,
